@@ -8,12 +8,12 @@ import Mathlib.Tactic.NormNum
 namespace Forsys
 
 /-- same body as `ratAbs` in Props/C02.lean (which is defined after this import) -/
-def ratAbs' (q : Rat) : Rat := if q < 0 then -q else q
+def ratAbsC02 (q : Rat) : Rat := if q < 0 then -q else q
 
 theorem Vec.ext' {a b : Vec} (hx : a.x = b.x) (hy : a.y = b.y) : a = b := by
   cases a; cases b; simp_all
 
-theorem ratSign_cases (q : Rat) :
+theorem ratSign_casesC02 (q : Rat) :
     (0 < q ∧ ratSign q = 1) ∨ (q < 0 ∧ ratSign q = -1) ∨ (q = 0 ∧ ratSign q = 0) := by
   unfold ratSign
   rcases lt_trichotomy q 0 with h | h | h
@@ -24,7 +24,7 @@ theorem ratSign_cases (q : Rat) :
 theorem forcedSign_cases (q : Rat) :
     (0 ≤ q ∧ forcedSign q = 1) ∨ (q < 0 ∧ forcedSign q = -1) := by
   unfold forcedSign
-  rcases ratSign_cases q with ⟨h, e⟩ | ⟨h, e⟩ | ⟨h, e⟩
+  rcases ratSign_casesC02 q with ⟨h, e⟩ | ⟨h, e⟩ | ⟨h, e⟩
   · left; exact ⟨h.le, by rw [e]; decide⟩
   · right; exact ⟨h, by rw [e]; decide⟩
   · left; exact ⟨h.ge, by rw [e]; decide⟩
@@ -36,22 +36,22 @@ theorem forcedSign_mul_self_rat (q : Rat) : (forcedSign q : Rat) * (forcedSign q
   have := forcedSign_mul_self q
   exact_mod_cast this
 
-theorem mul_ratSign' (q : Rat) : q * (ratSign q : Rat) = ratAbs' q := by
-  unfold ratAbs'
-  rcases ratSign_cases q with ⟨h, e⟩ | ⟨h, e⟩ | ⟨h, e⟩
+theorem mul_ratSign' (q : Rat) : q * (ratSign q : Rat) = ratAbsC02 q := by
+  unfold ratAbsC02
+  rcases ratSign_casesC02 q with ⟨h, e⟩ | ⟨h, e⟩ | ⟨h, e⟩
   · rw [e, if_neg (not_lt.mpr h.le)]; simp
   · rw [e, if_pos h]; simp
   · rw [e, if_neg (by rw [h]; exact lt_irrefl _)]; simp [h]
 
-theorem ratAbs_neg' (q : Rat) : ratAbs' (-q) = ratAbs' q := by
-  unfold ratAbs'
+theorem ratAbs_neg' (q : Rat) : ratAbsC02 (-q) = ratAbsC02 q := by
+  unfold ratAbsC02
   rcases lt_trichotomy q 0 with h | h | h
   · rw [if_neg (by linarith : ¬ -q < 0), if_pos h]
   · subst h; simp
   · rw [if_pos (by linarith : -q < 0), if_neg (by linarith : ¬ q < 0)]; ring
 
-theorem ratAbs_mul_self' (q : Rat) : ratAbs' q * ratAbs' q = q * q := by
-  unfold ratAbs'; split <;> ring
+theorem ratAbs_mul_self' (q : Rat) : ratAbsC02 q * ratAbsC02 q = q * q := by
+  unfold ratAbsC02; split <;> ring
 
 /-- both branches of `tangentVec` are the same expression -/
 theorem tangentVec_eq (p c : Pt) (ch : Vec) :
@@ -70,7 +70,7 @@ theorem tangentVec_eq (p c : Pt) (ch : Vec) :
     simp
 
 theorem tangentVec_abs' (p c : Pt) (ch : Vec) :
-    tangentVec p c ch = ⟨ratAbs' (p.y - c.y) * (forcedSign ch.x : Int), ratAbs' (p.x - c.x) * (forcedSign ch.y : Int)⟩ := by
+    tangentVec p c ch = ⟨ratAbsC02 (p.y - c.y) * (forcedSign ch.x : Int), ratAbsC02 (p.x - c.x) * (forcedSign ch.y : Int)⟩ := by
   rw [tangentVec_eq]
   apply Vec.ext' <;> simp only [Int.cast_mul]
   · rw [← ratAbs_neg' (p.y - c.y), ← mul_ratSign']; ring
@@ -173,15 +173,15 @@ theorem tangentVec_normSq' (p c : Pt) (ch : Vec) : (tangentVec p c ch).normSq = 
   have hy := forcedSign_mul_self_rat ch.y
   have ax := ratAbs_mul_self' (p.y - c.y)
   have ay := ratAbs_mul_self' (p.x - c.x)
-  calc ratAbs' (p.y - c.y) * ↑(forcedSign ch.x) * (ratAbs' (p.y - c.y) * ↑(forcedSign ch.x)) +
-        ratAbs' (p.x - c.x) * ↑(forcedSign ch.y) * (ratAbs' (p.x - c.x) * ↑(forcedSign ch.y))
-      = (ratAbs' (p.y - c.y) * ratAbs' (p.y - c.y)) * ((forcedSign ch.x : Rat) * (forcedSign ch.x : Rat)) +
-        (ratAbs' (p.x - c.x) * ratAbs' (p.x - c.x)) * ((forcedSign ch.y : Rat) * (forcedSign ch.y : Rat)) := by ring
+  calc ratAbsC02 (p.y - c.y) * ↑(forcedSign ch.x) * (ratAbsC02 (p.y - c.y) * ↑(forcedSign ch.x)) +
+        ratAbsC02 (p.x - c.x) * ↑(forcedSign ch.y) * (ratAbsC02 (p.x - c.x) * ↑(forcedSign ch.y))
+      = (ratAbsC02 (p.y - c.y) * ratAbsC02 (p.y - c.y)) * ((forcedSign ch.x : Rat) * (forcedSign ch.x : Rat)) +
+        (ratAbsC02 (p.x - c.x) * ratAbsC02 (p.x - c.x)) * ((forcedSign ch.y : Rat) * (forcedSign ch.y : Rat)) := by ring
     _ = _ := by rw [hx, hy, ax, ay]; ring
 
-theorem eq_ratAbs_mul_ratSign (q : Rat) : q = ratAbs' q * (ratSign q : Rat) := by
-  unfold ratAbs'
-  rcases ratSign_cases q with ⟨h, e⟩ | ⟨h, e⟩ | ⟨h, e⟩
+theorem eq_ratAbs_mul_ratSign (q : Rat) : q = ratAbsC02 q * (ratSign q : Rat) := by
+  unfold ratAbsC02
+  rcases ratSign_casesC02 q with ⟨h, e⟩ | ⟨h, e⟩ | ⟨h, e⟩
   · rw [e, if_neg (not_lt.mpr h.le)]; simp
   · rw [e, if_pos h]; simp
   · rw [e]; simp [h]
@@ -194,15 +194,15 @@ theorem tangentVecDot_y_cases (p c : Pt) (ch : Vec) :
     (tangentVecDot p c ch).y = p.x - c.x ∨ (tangentVecDot p c ch).y = -(p.x - c.x) := by
   rcases tangentVecDot_cases p c ch with ⟨_, e⟩ | ⟨_, e⟩ <;> rw [e] <;> simp [Vec.perp, Vec.neg, Vec.sub]
 
-theorem ratAbs_eq_of_cases {t q : Rat} (h : t = q ∨ t = -q) : ratAbs' q = ratAbs' t := by
+theorem ratAbs_eq_of_cases {t q : Rat} (h : t = q ∨ t = -q) : ratAbsC02 q = ratAbsC02 t := by
   rcases h with h | h <;> rw [h]
   rw [ratAbs_neg']
 
 theorem comp_eq {t q : Rat} {s : Int} (hc : t = q ∨ t = -q) (h : t = 0 ∨ ratSign t = s) :
-    ratAbs' q * (s : Rat) = t := by
+    ratAbsC02 q * (s : Rat) = t := by
   rw [ratAbs_eq_of_cases hc]
   rcases h with h | h
-  · rw [h]; simp [ratAbs']
+  · rw [h]; simp [ratAbsC02]
   · rw [← h]; exact (eq_ratAbs_mul_ratSign t).symm
 
 theorem tangentVec_eq_dot_partial' (p c : Pt) (ch : Vec)
